@@ -100,6 +100,12 @@ impl Machine {
                         let i = (y * w + x) as usize;
                         let inb = x >= l.bounds[0] && x < l.bounds[2] && y >= l.bounds[1] && y < l.bounds[3];
                         let inc = x >= eff.rect[0] && x < eff.rect[2] && y >= eff.rect[1] && y < eff.rect[3];
+                        if !inb && inc && (lp[i] != 0 || l.alt[i] != 0) {
+                            // drawn while the clip was wider than at push time: whether a layer can
+                            // hold such pixels is not something the property lets us demand either way
+                            undecided[i] = true;
+                            continue;
+                        }
                         if !inb || !inc || ob == 0 {
                             continue;
                         }
